@@ -39,6 +39,15 @@ def modelR : Model RSt :=
    fun s t => (step s.cfg s.st t).map (fun r => ({ s with st := r.1 }, fixEv r.2)),
    fun s t => (result s.st t).map (fun r => ({ s with st := r.1 }, r.2))⟩
 
+/-- The machine of the code before the repair of `retired_array::extend()` (`DHP.modelUnrepaired`), in the same wrapping:
+    `cdsdriver replay dhp_unrepaired`.  Used to show that the finding is characterised exactly: traces of the unrepaired
+    library in which a retired chain is extended replay on this machine and diverge on `modelR`.  No theorem is stated
+    about it. -/
+def modelRU : Model RSt :=
+  ⟨fun s t op => (invoke s.cfg s.st t op).map (fun st' => { s with st := st' }),
+   fun s t => (stepW s.cfg.B true s.cfg s.st t).map (fun r => ({ s with st := r.1 }, fixEv r.2)),
+   fun s t => (result s.st t).map (fun r => ({ s with st := r.1 }, r.2))⟩
+
 /-- Every run of the replay model is a run of the machine (same schedule, same states). -/
 theorem modelR_run (sched : List (Tid × Act)) :
     ∀ (s s' : RSt) (os : List (Tid × Obs)), modelR.run s sched = some (s', os) →
